@@ -29,6 +29,7 @@ ALL_FEATURES = frozenset({
     'kw_prefix_name',     # F-KWPREFIX: bare names starting with note/indexes where a keyword is tried first
     'inline_m2m',         # inline '<>' (stored as not inline)
     'mixed_layout',       # standalone refs between tables (document order != render order)
+    'ws_only_line',       # F-WSLINE: whitespace-only line inside a multi-line note
     'prop_newline',       # F-PROPNL: line break next to a property inside a column settings list (writer flag)
 })
 BASE_FEATURES = frozenset()
@@ -108,7 +109,11 @@ def note_text(features, multiline: bool = True):
     first = line_text(features, 1).map(lambda s: s.lstrip(' ')).map(lambda s: s if s.strip(' ') else 'n' + s)
     if not multiline:
         return first
-    inner = st.one_of(line_text(features, 0), st.sampled_from(['', '  ', '    indented', '  x']))
+    inner = st.one_of(line_text(features, 0), st.sampled_from(['', '', '    indented', '  x']))
+    if _has(features, 'ws_only_line'):
+        inner = st.one_of(inner, st.sampled_from(['  ', ' ', '    ']))
+    else:
+        inner = inner.map(lambda l: l if l.strip(' ') else '')
     last = line_text(features, 1).map(lambda s: s if s.strip(' ') else s + 'z')
 
     @st.composite
